@@ -33,7 +33,8 @@ for name in names:
     r["checks"] = {}
     for chk in RELATED[pid]:
         e = dict(os.environ, JASM_REPO=wt, VERIF_TIER="quick")
-        o = subprocess.run(["/verif/check", chk], cwd="/verif", env=e, capture_output=True, text=True)
+        vd = os.environ.get("VERIF_DIR", "/verif")
+        o = subprocess.run([vd + "/check", chk], cwd=vd, env=e, capture_output=True, text=True)
         keys = sorted(set(re.findall(r"^  key=(\S+)", o.stdout, re.M)))
         r["checks"][chk] = {"exit": o.returncode, "keys": keys[:8]}
     subprocess.run(["git", "-C", wt, "checkout", "-q", "--", "."])
